@@ -693,6 +693,16 @@ pub fn with_memory_budget<T>(bytes: usize, f: impl FnOnce() -> T) -> T {
     f()
 }
 
+/// Runs `f` on a helper thread; None if it has not finished after `secs` seconds (the helper thread is
+/// then abandoned - used only around calls that would self-deadlock in a faulty implementation).
+pub fn with_deadline<T: Send + 'static>(secs: u64, f: impl FnOnce() -> T + Send + 'static) -> Option<T> {
+    let (tx, rx) = std::sync::mpsc::channel();
+    std::thread::spawn(move || {
+        let _ = tx.send(f());
+    });
+    rx.recv_timeout(std::time::Duration::from_secs(secs)).ok()
+}
+
 /// helper to box a strategy
 pub fn boxed<S: Strategy + 'static>(s: S) -> BoxedStrategy<S::Value> {
     s.boxed()
